@@ -237,41 +237,49 @@ def _validate_types(nodes: dict[str, HyperNode], nx_graph: nx.DiGraph) -> None:
         if edge_data.get("edge_type") != "data":
             continue  # ordering edges (wait_for) name a signal, they carry no value to type-check
 
-        source_node = nodes[source_name]
         target_node = nodes[target_name]
 
         for value_name in value_names:
-            # Get types using universal capability methods
-            output_type = source_node.get_output_type(value_name)
-            input_type = target_node.get_input_type(value_name)
+            # The edge is drawn from one producer only, but every producer of the value feeds the consumer
+            producer_names = [source_name] + [n for n, other in nodes.items() if n != source_name and value_name in other.outputs]
+            for producer_name in producer_names:
+                _validate_edge_types(nodes[producer_name], target_node, value_name)
 
-            # Check for missing annotations
-            if output_type is None:
-                raise GraphConfigError(
-                    f"Missing type annotation in strict_types mode\n\n"
-                    f"  -> Node '{source_name}' output '{value_name}' has no type annotation\n\n"
-                    f"How to fix:\n"
-                    f"  Add type annotation: def {source_name}(...) -> ReturnType"
-                )
 
-            if input_type is None:
-                raise GraphConfigError(
-                    f"Missing type annotation in strict_types mode\n\n"
-                    f"  -> Node '{target_name}' parameter '{value_name}' has no type annotation\n\n"
-                    f"How to fix:\n"
-                    f"  Add type annotation: def {target_name}({value_name}: YourType) -> ReturnType"
-                )
+def _validate_edge_types(source_node: HyperNode, target_node: HyperNode, value_name: str) -> None:
+    """Check one producer -> consumer pair for a missing annotation or a type mismatch."""
+    source_name, target_name = source_node.name, target_node.name
+    # Get types using universal capability methods
+    output_type = source_node.get_output_type(value_name)
+    input_type = target_node.get_input_type(value_name)
 
-            # Check type compatibility
-            if not is_type_compatible(output_type, input_type):
-                raise GraphConfigError(
-                    f"Type mismatch between nodes\n\n"
-                    f"  -> Node '{source_name}' output '{value_name}' has type: {output_type}\n"
-                    f"  -> Node '{target_name}' input '{value_name}' expects type: {input_type}\n\n"
-                    f"How to fix:\n"
-                    f"  Either change the type annotation on one of the nodes, or add a\n"
-                    f"  conversion node between them."
-                )
+    # Check for missing annotations
+    if output_type is None:
+        raise GraphConfigError(
+            f"Missing type annotation in strict_types mode\n\n"
+            f"  -> Node '{source_name}' output '{value_name}' has no type annotation\n\n"
+            f"How to fix:\n"
+            f"  Add type annotation: def {source_name}(...) -> ReturnType"
+        )
+
+    if input_type is None:
+        raise GraphConfigError(
+            f"Missing type annotation in strict_types mode\n\n"
+            f"  -> Node '{target_name}' parameter '{value_name}' has no type annotation\n\n"
+            f"How to fix:\n"
+            f"  Add type annotation: def {target_name}({value_name}: YourType) -> ReturnType"
+        )
+
+    # Check type compatibility
+    if not is_type_compatible(output_type, input_type):
+        raise GraphConfigError(
+            f"Type mismatch between nodes\n\n"
+            f"  -> Node '{source_name}' output '{value_name}' has type: {output_type}\n"
+            f"  -> Node '{target_name}' input '{value_name}' expects type: {input_type}\n\n"
+            f"How to fix:\n"
+            f"  Either change the type annotation on one of the nodes, or add a\n"
+            f"  conversion node between them."
+        )
 
 
 # =============================================================================
